@@ -115,8 +115,61 @@ func DecodeStorable(dec *cbor.StreamDecoder, id atree.SlabID, inlinedExtraData [
 	}
 }
 
+// CompTI is the harness's composite type info.  test_utils.CompositeTypeInfo encodes with tag
+// number 246, which atree reserves for its own type-info references (registers holding one next to
+// other inlined type infos then fail to decode); applications must use non-reserved tags.
+type CompTI struct{ V uint64 }
+
+const compTITag = 200
+
+func (i CompTI) Copy() atree.TypeInfo { return i }
+func (i CompTI) IsComposite() bool    { return true }
+func (i CompTI) Encode(enc *cbor.StreamEncoder) error {
+	if err := enc.EncodeTagHead(compTITag); err != nil {
+		return err
+	}
+	return enc.EncodeUint64(i.V)
+}
+
 func DecodeTypeInfo(dec *cbor.StreamDecoder) (atree.TypeInfo, error) {
-	return tu.DecodeTypeInfo(dec)
+	t, err := dec.NextType()
+	if err != nil {
+		return nil, err
+	}
+	switch t {
+	case cbor.UintType:
+		v, err := dec.DecodeUint64()
+		if err != nil {
+			return nil, err
+		}
+		return tu.NewSimpleTypeInfo(v), nil
+	case cbor.TagType:
+		n, err := dec.DecodeTagNumber()
+		if err != nil {
+			return nil, err
+		}
+		if n != compTITag {
+			return nil, fmt.Errorf("failed to decode type info: tag %d", n)
+		}
+		v, err := dec.DecodeUint64()
+		if err != nil {
+			return nil, err
+		}
+		return CompTI{v}, nil
+	}
+	return nil, fmt.Errorf("failed to decode type info")
+}
+
+// CompareTypeInfo is the TypeInfoComparator handed to the in-repo verifiers.
+func CompareTypeInfo(a, b atree.TypeInfo) bool {
+	switch a := a.(type) {
+	case tu.SimpleTypeInfo:
+		return a.Equal(b)
+	case CompTI:
+		o, ok := b.(CompTI)
+		return ok && o.V == a.V
+	}
+	return false
 }
 
 // ---------------------------------------------------------------------------------------------
@@ -353,4 +406,8 @@ func tiText(t atree.TypeInfo) string {
 		return "nil"
 	}
 	return fmt.Sprintf("%T%v", t, t)
+}
+
+func thresholds() (target, minT, maxT, maxArr, maxMapElem, maxKey uint32) {
+	return atree.VerifThresholds()
 }
